@@ -361,12 +361,20 @@ class G:
                     self.features.add("pk:reserved")
                     continue
                 if r < 24:
-                    dct = self.int_dct(32, signed=False)
-                    dct.pop("mask", None)
-                    bit = self.d(st.integers(0, 7)) if self.chance(30) else 0
-                    sz = (bit + dct["bl"] + 7) // 8
+                    if self.chance(20) and self.opts.get("bytefield_const", True):
+                        nb = self.d(st.integers(1, 3))
+                        dct = {"t": "std", "bt": "A_BYTEFIELD", "bl": 8 * nb, "enc": None, "hl": None}
+                        bit, sz = 0, nb
+                        cv = self.d(st.binary(min_size=nb, max_size=nb))
+                        self.features.add("const:bytefield")
+                    else:
+                        dct = self.int_dct(32, signed=False)
+                        dct.pop("mask", None)
+                        bit = self.d(st.integers(0, 7)) if self.chance(30) else 0
+                        sz = (bit + dct["bl"] + 7) // 8
+                        cv = self.int_value(dct)
                     p = {"pk": "const", "name": self.nid("cc"), "pos": pos, "bit": bit, "dct": dct,
-                         "v": self.int_value(dct), "_end": pos + sz}
+                         "v": cv, "_end": pos + sz}
                     static_layout.append(p)
                     pos += sz
                     self.features.add("pk:const")
@@ -728,7 +736,7 @@ class G:
                     cs, _, _ = self.struct(0, not tail and self.chance(70), tail)
                 else:
                     self.features.add("mux-case-without-structure")
-                cases.append({"name": f"c{c}", "lo": lo, "hi": hi, "st": cs})
+                cases.append({"name": f"c{c}", "lo": lo, "hi": hi, "st": cs, "snref": self.chance(30)})
                 lo = hi + 1 + self.pick([0, 0, 2])
             default = None
             used = set()
